@@ -19,6 +19,10 @@ TIES = {
     "errors": ("ErrorCommsManager.do_i_* / ErrorHandler._handle_if (csvpath/util/error.py)", lambda: __import__("err2v").translate(REPO),
                ("Match", "ErrSrc.v"), ("Match", "ErrSrcEq.v"), "From V Require Import Scan.PySem Match.ErrEv Match.ErrSrc Match.Errors.",
                "From V Require Import Scan.PySem Match.ErrEv Match.Errors.\nFrom Tie Require Import ErrSrc.", "do_i_*_src_eq, handle_if_src_eq"),
+    "assign": ("Equality._do_assignment_new_impl / _latch_and_onchange / _set_variable_if (csvpath/matching/productions/equality.py)",
+               lambda: __import__("asg2v").translate(os.path.join(REPO, "csvpath", "matching", "productions", "equality.py")),
+               ("Match", "AsgSrc.v"), ("Match", "AsgSrcEq.v"), "From V Require Import Match.Assign Match.QSem Match.AsgSrc.",
+               "From V Require Import Match.Assign Match.QSem.\nFrom Tie Require Import AsgSrc.", "set_variable_if_src_eq, latch_and_onchange_src_eq, do_assignment_src_eq"),
 }
 
 
